@@ -626,9 +626,64 @@ fn check_scoped_stack(own: bool, ops: &[u8]) -> Option<(String, String)> {
     None
 }
 
+/// A mountain: n pushes followed by n pops on one real stack, compared with a plain Vec after every
+/// operation (length, top, the popped population); n far beyond the BFS bound.
+fn check_mountain(n: usize, use_try_pop: bool) -> Option<(String, String)> {
+    let mut pops = Populations::<TagP>::new();
+    let mut model: Vec<Pop> = vec![];
+    let ctx = |w: String| format!("{} pushes then {} {}s on one stack: {}", n, n, if use_try_pop { "try_pop" } else { "pop" }, w);
+    let r = catch(|| -> Option<String> {
+        for k in 0..n {
+            let p: Pop = (0..1 + k % 3).map(|j| ((k * 3 + j) as u32, (j % 3) as u8)).collect();
+            pops.push(p.iter().map(mk).collect());
+            model.push(p);
+            if pops.len() != model.len() || rdp(pops.current()) != *model.last().unwrap() {
+                return Some(format!("after push {} the stack has {} populations (expected {}) with top {:?}", k, pops.len(), model.len(), rdp(pops.current())));
+            }
+        }
+        for k in 0..n {
+            let got = if use_try_pop { pops.try_pop().map(|p| rdp(&p)) } else { Some(rdp(&pops.pop())) };
+            let exp = model.pop();
+            if got != exp || pops.len() != model.len() {
+                return Some(format!("pop number {} returned {:?} (expected {:?}); the stack now has {} populations, expected {}", k, got, exp, pops.len(), model.len()));
+            }
+            if let Some(top) = model.last() {
+                if rdp(pops.current()) != *top || rdp(pops.peek(model.len() - 1)) != model[0] {
+                    return Some(format!("after pop number {} top or bottom population differ from the reference", k));
+                }
+            }
+        }
+        None
+    });
+    match r {
+        Err(p) => Some(("C04 mountain panic".into(), ctx(format!("panicked: {}", p)))),
+        Ok(Some(w)) => Some(("C04 mountain content".into(), ctx(w))),
+        Ok(None) => None,
+    }
+}
+
+/// peek / try_peek with depths that only fit a 64-bit index
+fn check_huge_depth(h: usize, depth: usize) -> Option<(String, String)> {
+    let mut pops = Populations::<TagP>::new();
+    for k in 0..h {
+        pops.push(vec![mk(&(k as u32, 0))]);
+    }
+    let tp = catch(|| pops.try_peek(depth).map(rdp));
+    let pk = catch(|| rdp(pops.peek(depth)));
+    let ctx = |w: String| format!("stack of {} populations, depth {}: {}", h, depth, w);
+    if !matches!(tp, Ok(None)) {
+        return Some(("C04 op=TryPeek height=too-shallow huge-depth".into(), ctx(format!("try_peek returned {:?}", tp))));
+    }
+    if pk.is_ok() {
+        return Some(("C04 op=Peek height=too-shallow huge-depth".into(), ctx(format!("peek returned {:?} instead of panicking", pk))));
+    }
+    None
+}
+
 pub fn run(rep: &mut Report) {
     rep.alpha("Populations: push (fresh tagged population, sizes 0..S, objective patterns incl. ties), pop, try_pop, current, get_current, current_mut/get_current_mut + edit (push/clear/reverse), peek(d), try_peek(d) for d <= h+1, rotate(n) once and twice for n <= h (+ n = h+1), len, is_empty");
     rep.alpha("the stack inside an inner scope with / without a stack of its own: all operation sequences of length <= 3 (quick) / 4 (thorough) over push, try_pop, len, try_peek, current_mut edit, rotate; populations with spare capacity (PushRoomy) and shrinking edits");
+    rep.alpha("mountains: n pushes then n pops on one stack for n up to 300 (thorough 4200), every result compared; peek / try_peek with depths from 2^31 to 2^64-1");
     rep.alpha("components RotatePopulations(n) for n <= h+1, ClearPopulation, DuplicatePopulation, InterleavePopulations, SplitPopulationByObjectiveValue (populations of >= 2 evaluated individuals)");
     rep.assume("tags are renamed in order of first appearance (no stack operation inspects solutions); objective ranks are part of the key because the split component reads them");
     rep.assume("for rotation only what the statement fixes is required (exactly the top n change, cyclic shift by one, n = 0..height succeed); the documented direction is a separate signature of the same property");
@@ -678,6 +733,30 @@ pub fn run(rep: &mut Report) {
     }
     p.outcome("agree");
     p.outcome(format!("height:{}", hist.len()));
+    rep.push(p);
+
+    let mut p = Part::new("popstack.mountains");
+    for n in rep.tier.pick(vec![40usize, 130, 300], vec![40usize, 130, 300, 1100, 4200]) {
+        for tp in [false, true] {
+            p.transitions += 2 * n as u64;
+            p.traces += 1;
+            p.states += 1;
+            p.outcome(format!("n:{}", n));
+            if let Some((sg, d)) = check_mountain(n, tp) {
+                p.violate(sg, d, json!({"mountain": n, "try_pop": tp}));
+            }
+        }
+    }
+    for h in [0usize, 1, 3] {
+        for depth in [1usize << 31, (1usize << 31) + 1, 1usize << 32, (1usize << 32) + 1, (1usize << 32) + 2, 3usize << 32, 1usize << 63, usize::MAX, usize::MAX - 1] {
+            p.transitions += 2;
+            p.traces += 1;
+            p.states += 1;
+            if let Some((sg, d)) = check_huge_depth(h, depth) {
+                p.violate(sg, d, json!({"huge_depth": depth.to_string(), "h": h}));
+            }
+        }
+    }
     rep.push(p);
 
     // the stack as scoped state
@@ -741,6 +820,12 @@ fn parse_op(v: &Value) -> Result<Op, String> {
 }
 
 pub fn replay(case: &Value) -> Result<Vec<(String, String)>, String> {
+    if let Some(n) = case["mountain"].as_u64() {
+        return Ok(check_mountain(n as usize, case["try_pop"].as_bool().unwrap_or(false)).into_iter().collect());
+    }
+    if let Some(d) = case["huge_depth"].as_str() {
+        return Ok(check_huge_depth(case["h"].as_u64().unwrap_or(0) as usize, d.parse::<usize>().map_err(|e| e.to_string())?).into_iter().collect());
+    }
     if let Some(own) = case["scoped"].as_bool() {
         let ops: Vec<u8> = case["ops"].as_array().ok_or("no ops")?.iter().map(|x| x.as_u64().unwrap_or(0) as u8).collect();
         return Ok(check_scoped_stack(own, &ops).into_iter().collect());
